@@ -384,6 +384,11 @@ func init() {
 			c := bufCell(s)
 			data, _ = (*c).([]value)
 			*c = []value(nil)
+		case *bytesReaderModel:
+			if !s.read {
+				data = s.data
+				s.read = true
+			}
 		default:
 			unsupportedf("io.Copy from %T", src.v)
 		}
@@ -590,6 +595,12 @@ func (i *interpreter) readAll(r value) value {
 		node = v.node
 	case *gzReaderModel:
 		node, gzRead = v.f.node, true
+	case *bytesReaderModel:
+		if v.read {
+			return tuple{[]value{}, iface{}}
+		}
+		v.read = true
+		return tuple{append([]value(nil), v.data...), iface{}}
 	default:
 		unsupportedf("ReadAll from %T", it.v)
 	}
